@@ -127,7 +127,11 @@ func (a *Act) doCall(res ssa.Value, instr ssa.Instruction, c *ssa.CallCommon, re
 		a.closureCall(res, instr, ci, args, st, reach)
 		return
 	}
-	// known function values: (mkIface tag (bOpaque id)) cannot be recovered syntactically in general
+	// a function value that is a known top-level function (e.g. a parameter bound by specialization)
+	if f := eng.funcByTerm[recv]; f != nil {
+		a.staticCall(res, instr, f, args, st, reach)
+		return
+	}
 	if fp := eng.fnparamContract(a, c.Value); fp != nil {
 		a.callByContract(res, instr, nil, fp, args, st, reach)
 		return
@@ -267,6 +271,16 @@ func (a *Act) runWithFree(args, freeVars []string, st *State, reach string) {
 
 func (a *Act) callByContract(res ssa.Value, instr ssa.Instruction, fn *ssa.Function, ct *Contract, args []string, st *State, reach string) {
 	g := a.g
+	// contract variants specialised on a function-valued argument:  key[funcName]
+	if fn != nil {
+		for _, x := range args {
+			if f := g.eng.funcByTerm[x]; f != nil {
+				if v := g.eng.contracts[ct.Key+"["+f.Name()+"]"]; v != nil {
+					ct = v
+				}
+			}
+		}
+	}
 	cs := &callSite{a: a, ct: ct, fn: fn, args: args, pre: st.clone()}
 	name := ct.Key
 	// preconditions
@@ -295,6 +309,16 @@ func (a *Act) callByContract(res ssa.Value, instr ssa.Instruction, fn *ssa.Funct
 		}
 		if ct.ModifiesAll {
 			g.oblige("frame", a.srcDetail(instr), reach, "false", a.pos(instr.Pos()), "callee "+name+" may modify anything")
+		}
+	}
+	// arguments passed for parameters the callee retains must not point into the caller's own input buffers
+	if len(ct.Retains) > 0 && fn != nil {
+		for i, p := range fn.Params {
+			for _, r := range ct.Retains {
+				if p.Name() == r && i < len(args) {
+					a.noAliasOblige(instr, reach, p.Type(), args[i], "argument retained by "+name)
+				}
+			}
 		}
 	}
 	// effect: havoc of the modifies set (and of everything allocated by the callee)
@@ -328,6 +352,31 @@ func (a *Act) callByContract(res ssa.Value, instr ssa.Instruction, fn *ssa.Funct
 				al = false
 			}
 			post.H[k] = g.framedHeapK(a.nm("after_"+sanitize(name)), k, st.H[k], st.Next, named, mk, al)
+		}
+	}
+	// decoders do not create references into their byte-slice arguments (each is verified in noalias mode): a cell of a
+	// pre-existing object that points into such an argument after the call did so before
+	if len(g.inputBufs) > 0 && fn != nil && !ct.ModifiesAll {
+		for i, p := range fn.Params {
+			sl, ok := p.Type().Underlying().(*types.Slice)
+			if !ok || i >= len(args) {
+				continue
+			}
+			if b, ok := sl.Elem().Underlying().(*types.Basic); !ok || b.Kind() != types.Uint8 {
+				continue
+			}
+			retained := false
+			for _, r := range ct.Retains {
+				if r == p.Name() {
+					retained = true
+				}
+			}
+			if retained {
+				continue
+			}
+			for _, k := range []string{"L", "ML"} {
+				g.assumeIf(reach, fmt.Sprintf("(forall ((r Int) (o Int)) (! (=> (and (< r %s) (not (= (sref %s) 0)) (= (sref (select (select %s r) o)) (sref %s))) (= (sref (select (select %s r) o)) (sref %s))) :pattern ((select (select %s r) o))))", st.Next, args[i], post.H[k], args[i], st.H[k], args[i], post.H[k]))
+			}
 		}
 	}
 	*st = *post
